@@ -252,7 +252,7 @@ def run_item(item) -> Acc:
         ind = ""
         if b <= nl:
             ind = lines[b - 1][: len(lines[b - 1]) - len(lines[b - 1].lstrip())]
-        for kind, ins in (("blank-line", ""), ("comment-line", f"{ind}{cm} an unrelated remark"), ("whitespace-only-line", ind + "  ")):
+        for kind, ins in (("blank-line", ""), ("comment-line", f"{ind}{cm} an unrelated remark"), ("whitespace-only-line", ind + "  "), ("non-ascii-comment-line", f"{ind}{cm} 設定値の説明 – ünïcödé rémârk ✓✓✓✓✓✓✓✓")):
             nt = "\n".join(lines[: b - 1] + [ins] + lines[b - 1 :]) + "\n"
             check(kind, b, nt, lambda x, b=b: x + 1 if x >= b else x)
     # E3: trailing whitespace on every line that is not inside a multi-line token
@@ -308,7 +308,7 @@ def run_item(item) -> Acc:
         if item.get("extra") is not None:
             sig["example"] = EXTRA[item["extra"]][2]
             c0["extra"] = item["extra"]
-        if name == "dry" and kind in ("blank-line", "comment-line", "whitespace-only-line", "blank+comment"):
+        if name == "dry" and kind in ("blank-line", "comment-line", "whitespace-only-line", "non-ascii-comment-line", "blank+comment"):
             # one root cause: which of the overlapping duplicate windows is kept depends on the
             # physical line spans, so a line inserted inside a duplicated block re-selects them
             sig = {"linter": "dry", "edit": "line-inserted-inside-duplicated-block", "mode": "duplicate-windows-reselected"}
